@@ -13,9 +13,10 @@ RULE = ("P1: TLC checks the control-flow models of the rejection/iteration sampl
         "1500 x 1000 sample matrix return exactly what was asked for; binomial laws with up to 2e7 trials and a success"
         " probability within 2^-22 of 0 or 1 against an mpmath CDF table; degenerate continuous uniform laws (lower = "
         "upper; constructor, setter, update) return their single support point; every row is sampled a second and third"
-        " time (4e4 draws) from an object moved to its parameters by update / by the setters; MVN cases are repeated "
-        "with the covariance factor times 2^-22 and 2^14; MVN draws are whitened with the driver's L: every coordinate "
-        "and two projections against the standard normal CDF. Case class = (law, regime).")
+        " time (4e4 draws) from an object moved to its parameters by update / by the setters; two of the MVN "
+        "covariances have an exact zero where the Cholesky factor fills in; MVN cases are repeated with the covariance "
+        "factor times 2^-22 and 2^14; MVN draws are whitened with the driver's L: every coordinate and two projections "
+        "against the standard normal CDF. Case class = (law, regime).")
 ASSUMPTIONS = ["true CDF values come from the committed mpmath table; nF = round(n F(t)) is formed by the harness, the acceptance band by the spec",
                "DKW false-alarm probability <= 1e-12 per threshold; measured sup-deviation on the unchanged tree below half the band in every case",
                "a sampler that does not return within 30 s (+ n / 20000 s) is reported as 'timeout' (a violation of 'sampling terminates'), not as a tool error"]
